@@ -89,7 +89,7 @@ macro "c_wf" h:ident : tactic => `(tactic| simp only [CWF, Fifo.Inv, toModel] at
 
 /-- split every case distinction and close the leaves -/
 macro "c_close" : tactic => `(tactic| (
-  repeat' split
+  repeat' (split <;> try omega)
   all_goals (try simp (disch := omega) only [wrap16_of_range] at *)
   all_goals (try simp (disch := omega) only [List.getElem?_eq_getElem, Option.getD_some, Option.map_some, Option.map_none,
     Option.isSome_some, Option.isSome_none])
